@@ -111,20 +111,8 @@ structure State where
   before : Option (Except String Dump × List (List String)) := none
   call : Option Call := none
   selfcheck : Bool := false
-  excludeDefect : Bool := false                  -- VERIF_C08_EXCLUDE_REORDER_DEFECT: for trees without hwloc fix 5facd58
-  tainted : Bool := false                        -- the current topology went through the reorder-defect class
-  includeMergeSets : Bool := false               -- VERIF_C08_INCLUDE_MERGE_SETS_DEFECT: judge the merge-complete-sets class too
 
-def init (selfcheck excludeDefect includeMergeSets : Bool) : State :=
-  { selfcheck := selfcheck, excludeDefect := excludeDefect, includeMergeSets := includeMergeSets }
-
-/-- the class of the defect "reorder without reconnect" (fixed in /repo by 5facd58): the tree recursion removes no object (so
-    the unfixed C code left topology->modified = 0 and hwloc__reconnect() did not rebuild children[] / sibling_rank /
-    prev_sibling / last_child) although hwloc__reorder_children() changed the order of some first_child/next_sibling list -/
-def reorderDefect (tree : Tree) (p : Params) : Bool :=
-  let a := (restrictTW reorder p tree).kept
-  let b := (restrictTW id p tree).kept
-  (objsL a).length == (objsT tree).length && (objsL a).map (·.gp) != (objsL b).map (·.gp)
+def init (selfcheck : Bool) : State := { selfcheck := selfcheck }
 
 def parseCSet (s : String) : Option CSet :=
   if s.startsWith "I" then (parseHex (s.drop 1).toString).map (fun m => ⟨m, true⟩)
@@ -138,9 +126,9 @@ def levelsOfDump (d : Dump) : List (List Nat) :=
     | some l => l.objs.map (fun i => match d.obj? i with | some o => o.gp | none => 0)
     | none => [])
 
-def verdict (st : State) (c : Call) (bd : Dump) (braw : List (List String)) (ad : Dump) (araw : List (List String)) : String × Bool :=
+def verdict (st : State) (c : Call) (bd : Dump) (braw : List (List String)) (ad : Dump) (araw : List (List String)) : String :=
   match buildTree bd with
-  | .error e => ("MODEL-INPUT-ERROR before-dump-is-not-a-tree:" ++ e, st.tainted)
+  | .error e => "MODEL-INPUT-ERROR before-dump-is-not-a-tree:" ++ e
   | .ok tree =>
     let topo := topoOf bd tree
     -- the hypothesis of the exactness theorems must hold on every well-formed BEFORE dump (WF implies SetsOK)
@@ -148,43 +136,28 @@ def verdict (st : State) (c : Call) (bd : Dump) (braw : List (List String)) (ad 
                (if st.selfcheck && (connectLevels tree).map (·.map (·.gp)) != levelsOfDump bd then ["selfcheck-levels-model-before"] else [])
     let (topo', ret) := restrict topo c.set c.flags
     match ret with
-    | .rootRemoved => ("MODEL-UNDEFINED root-would-be-removed", st.tainted)
+    | .rootRemoved => "MODEL-UNDEFINED root-would-be-removed"
     | .einval =>
       let probs := hyp ++ (if araw == braw then [] else ["einval-but-topology-changed"])
-      ("ret=-1 errno=EINVAL" ++ (if probs.isEmpty then "" else " MISMATCH " ++ ",".intercalate probs), st.tainted)
+      "ret=-1 errno=EINVAL" ++ (if probs.isEmpty then "" else " MISMATCH " ++ ",".intercalate probs)
     | .ok =>
-      let defect := match plan topo c.set c.flags with | some p => reorderDefect tree p | none => false
       -- well-formedness must be preserved: clauses violated after the call that were not already violated before it
       let clause (s : String) : String := (s.splitOn "@").headD s
       let wfBefore := (wfCheck bd).map clause
-      let wf0 := (wfCheck ad).filter (fun s => !wfBefore.contains (clause s))
-      -- finding "merge-complete-sets": level merging that replaces a parent by its single child re-attaches the parent's
-      -- memory children below an object whose complete sets may be smaller (C01 clause set-in-parent broken although the
-      -- tree recursion preserved it).  The model predicts exactly when: SetsOK holds before merging and fails after it.
-      let mergeBreaks := match plan topo c.set c.flags with
-        | some p => (match restrictCore topo p with | some core => okT core.tree && !okT topo'.tree | none => false)
-        | none => false
-      let wf := if mergeBreaks && !st.includeMergeSets then wf0.filter (fun s => clause s != "set-in-parent") else wf0
-      let knownMerge := mergeBreaks && !st.includeMergeSets && wf.length != wf0.length
+      let wf := (wfCheck ad).filter (fun s => !wfBefore.contains (clause s))
       let probs := hyp ++
         (match firstDiff (rowsT (-1) topo'.tree) (rowsOfDump ad) with | none => [] | some s => [s]) ++
         (if ad.allowedCpuset == some topo'.allowedCpu then [] else ["allowed-cpuset:model=" ++ toHex topo'.allowedCpu]) ++
         (if ad.allowedNodeset == some topo'.allowedNode then [] else ["allowed-nodeset:model=" ++ toHex topo'.allowedNode]) ++
         (if ad.filters == bd.filters && ad.flags == bd.flags then [] else ["flags-or-filters-changed"]) ++
         (if wf.isEmpty then [] else ["after-dump-not-WF:" ++ "+".intercalate (wf.take 4)])
-      -- only with the exclusion switch (hwloc trees older than fix 5facd58): a disagreement inside the defect class is tagged
-      if !probs.isEmpty && st.excludeDefect && (defect || st.tainted) then
-        ("ret=0 errno=ok " ++ (if defect then "KNOWN-DEFECT-reorder-without-reconnect" else "TAINTED-by-reorder-without-reconnect"), true)
-      else
-      ("ret=0 errno=ok" ++ (if probs.isEmpty then (if knownMerge then " KNOWN-DEFECT-merge-complete-sets" else "")
-                            else " MISMATCH " ++ ",".intercalate probs), st.tainted)
+      "ret=0 errno=ok" ++ (if probs.isEmpty then "" else " MISMATCH " ++ ",".intercalate probs)
 
 def step (st : State) (line : String) : State × String :=
   let t := tokens line
   match t with
   | "echo" :: rest =>
-    ({ st with before := none, call := none, raw := [], part := {}, tainted := st.tainted && rest.head? != some "topo" },
-     " ".intercalate rest)
+    ({ st with before := none, call := none, raw := [], part := {} }, " ".intercalate rest)
   | ["restrict", set, flags, ret, err] =>
     match parseCSet set, parseNat flags with
     | some s, some f => ({ st with call := some ⟨s, f, ret, err⟩ }, ".")
@@ -201,11 +174,11 @@ def step (st : State) (line : String) : State × String :=
       if tag == "B" then ({ st with part := {}, raw := [], before := some (d, raw), call := none }, ".")
       else match st.before, st.call with
         | some (bd, braw), some c =>
-          let (out, taint) := match bd, d with
-            | .error e, _ => ("MODEL-INPUT-ERROR before-dump-unparsable:" ++ e, st.tainted)
-            | _, .error e => ("MODEL-INPUT-ERROR after-dump-unparsable:" ++ e, st.tainted)
+          let out := match bd, d with
+            | .error e, _ => "MODEL-INPUT-ERROR before-dump-unparsable:" ++ e
+            | _, .error e => "MODEL-INPUT-ERROR after-dump-unparsable:" ++ e
             | .ok bd, .ok ad => verdict st c bd braw ad raw
-          ({ st with part := {}, raw := [], before := none, call := none, tainted := taint }, out)
+          ({ st with part := {}, raw := [], before := none, call := none }, out)
         | _, _ => ({ st with part := {}, raw := [] }, "bad-op")
   | k :: _ =>
     if k == "O" || k == "L" || k == "TD" then
